@@ -240,8 +240,14 @@ def ambiguous(m, pkt):
   z = []
   if e["nw_tos"] is not None and ("ecn" in notes or (e["nw_tos"] & 3)):
     z.append("tos-ecn-bits")            # 6-bit DSCP in the upper bits; the low two bits are unspecified
-  if e["dl_vlan_pcp"] is not None and pkt["dl_vlan"] == OFP_VLAN_NONE and e["dl_vlan"] in (None, OFP_VLAN_NONE):
-    z.append("pcp-untagged")            # a PCP cannot be compared with a frame that has no tag
+  if e["dl_vlan_pcp"] is not None and pkt["dl_vlan"] == OFP_VLAN_NONE:
+    # A frame without a tag has no PCP.  Reading 1 (used by matches()): it counts as PCP 0.  Reading 2
+    # (Open vSwitch): the PCP is ignored when the match asks for "no tag", and a PCP match with the VLAN id
+    # wildcarded selects tagged frames only.  Ambiguous exactly where the two readings disagree.
+    if e["dl_vlan"] == OFP_VLAN_NONE and e["dl_vlan_pcp"] != 0:
+      z.append("pcp-untagged")
+    elif e["dl_vlan"] is None and e["dl_vlan_pcp"] == 0:
+      z.append("pcp-untagged")
   for n in ("snap-oui", "vlan+llc", "arp-op>255", "arp-plen", "arp-odd", "truncated", "qinq"):
     if n in notes:
       z.append(n)
